@@ -21,6 +21,7 @@ import GoaktVerif.Lemmas.C04.RingTrace2
 import GoaktVerif.Lemmas.C04.SegTrace5
 import GoaktVerif.Lemmas.C04.IntakeValues
 import GoaktVerif.Lemmas.C04.FairInv
+import GoaktVerif.Lemmas.C04.FairCount
 
 namespace GoaktVerif.C04
 open GoaktVerif.Model.C04 GoaktVerif.Spec.C04
@@ -631,10 +632,11 @@ at a site from which it will still (re)check that sender (the producer between `
 `CAS:active`; the consumer between `Store:active(false)` and its re-check).  Every atomic step of every
 thread preserves it except ONE: the nil-branch re-check executed while `pending > 0`, `active = false` and
 `length ≤ 0` (`FairInv.guardMiss`) — the step the counting identity was meant to exclude and the one the
-witnesses F9/F9b take.  `FairInv.ReachNM` = reachable without such a step.  NOT proved: that an active
-sender is in the active list exactly once (the list structure), and the counting identity itself, which is
-false of the code as it is (`fair_counting_refuted`) and is expected to hold after
-fixes/C04-fair-count-before-publish. -/
+witnesses F9/F9b take.  `FairInv.ReachNM` = reachable without such a step.  The counting identity is false of
+the code as it is (`fair_counting_refuted`); it is proved below for the runs on which no message is consumed
+before it is counted (`fair_counting_identity`), where it excludes that step (`fair_no_stranded_sender`).
+NOT proved: that an active sender is in the active list exactly once (the list structure), and that the
+repaired code (fixes/C04-fair-count-before-publish) never consumes an uncounted message. -/
 
 theorem fair_activation_protocol (progs : List (List Op)) (c : Cfg Fair.algo)
     (h : FairInv.ReachNM (initCfg Fair.algo Fair.init progs) c) :
@@ -650,6 +652,44 @@ theorem fair_no_stranded_sender_when_quiescent (progs : List (List Op)) (c : Cfg
   rcases FairInv.actInv_reach progs c h k hp with ha | hc
   · exact ha
   · exact absurd hc (FairInv.quiescent_no_check c hd k)
+
+/-- THE COUNTING IDENTITY, for every schedule on which no message is consumed before it is counted
+(`FairInv.ReachNU`: the consumer's `Add:pending(−1)` finds `pending ≥ 1`, finalizeSender's `remaining < 0`
+branch is not taken), any number of producers, one consumer `ct`:
+`length = Σ_{k<K} pending_k + #{threads between Add:length(+1) and Add:pending(+1)} − #{threads between
+Add:length(−1) and Add:pending(−1)}` for a bound `K` beyond which every `pending` is 0, and every `pending`
+is non-negative.  The hypothesis is what the code as it is violates (`fair_counting_refuted`, F9). -/
+theorem fair_counting_identity (ct : Nat) (progs : List (List Op)) (wf : FairInv.FairWF ct progs) (c : Cfg Fair.algo)
+    (h : FairInv.ReachNU (initCfg Fair.algo Fair.init progs) c) :
+    (∃ K, FairInv.Supp c.sh K ∧ c.sh.length = FairInv.sumP K c.sh + FairInv.cnt c.threads) ∧
+    (∀ k, 0 ≤ (c.sh.boxes k).pending) :=
+  ⟨(FairInv.countInv_reach ct progs wf c h).ident, (FairInv.countInv_reach ct progs wf c h).nonneg⟩
+
+/-- NO STRANDED SENDER on those runs: the identity makes the one bad step of `fair_activation_protocol`
+impossible (`pending_k > 0` implies `length > 0` at the re-check), so in every such configuration a sender with
+counted messages is active or about to be (re)checked, and active once all threads have finished -/
+theorem fair_no_stranded_sender (ct : Nat) (progs : List (List Op)) (wf : FairInv.FairWF ct progs) (c : Cfg Fair.algo)
+    (h : FairInv.ReachNU (initCfg Fair.algo Fair.init progs) c) :
+    (∀ k, (c.sh.boxes k).pending > 0 → (c.sh.boxes k).active = true ∨ FairInv.someoneChecks c k) ∧
+    (allDone c = true → ∀ k, (c.sh.boxes k).pending > 0 → (c.sh.boxes k).active = true) := by
+  have hnm := FairInv.reachNU_reachNM ct progs wf c h
+  exact ⟨fair_activation_protocol progs c hnm, fun hd => fair_no_stranded_sender_when_quiescent progs c hnm hd⟩
+
+/-- the hypothesis is not vacuous: the F3 schedule (two producers of one sender, the consumer running into the
+nil-branch re-check) consumes nothing uncounted, so its final configuration is covered by the two theorems
+above; the F9 schedule is not (its 69th step is the uncounted decrement) -/
+theorem fair_hypothesis_instances :
+    FairInv.ReachNU (initCfg Fair.algo Fair.init F3_progs) (runOf .fair F3_progs F3_sched) ∧
+    FairInv.FairWF 2 F3_progs ∧
+    FairInv.runNU (initCfg Fair.algo Fair.init F9_progs) (F9_sched.take 68) = true ∧
+    FairInv.runNU (initCfg Fair.algo Fair.init F9_progs) (F9_sched.take 69) = false := by
+  refine ⟨FairInv.reachNU_run _ _ FairInv.ReachNU.init F3_sched (by decide +kernel), ?_, by decide +kernel, by decide +kernel⟩
+  intro i p hp hi op ho
+  match i, hp with
+  | 0, hp => simp [F3_progs] at hp; subst hp; simp at ho; subst ho; rfl
+  | 1, hp => simp [F3_progs] at hp; subst hp; simp at ho; subst ho; rfl
+  | 2, _ => exact absurd rfl hi
+  | n + 3, hp => simp [F3_progs] at hp
 
 /-- the sub-queue of sender `k` is an UnboundedMailbox driven by nothing but UnboundedMailbox steps taken
 on behalf of `k`: every step of the fair mailbox leaves it alone or is exactly one step of that mailbox -/
@@ -740,7 +780,14 @@ def Refines : MB → Prop
       ((Fair.exec s pc).1.boxes k).mb = (s.boxes k).mb ∨
       ∃ upc, pc = .ub k upc ∧ ((Fair.exec s pc).1.boxes k).mb = (Unbounded.exec (s.boxes k).mb upc).1) ∧
     (∀ (progs : List (List Op)) (c : Cfg Fair.algo), FairInv.ReachNM (initCfg Fair.algo Fair.init progs) c →
-      ∀ k, (c.sh.boxes k).pending > 0 → (c.sh.boxes k).active = true ∨ FairInv.someoneChecks c k)
+      ∀ k, (c.sh.boxes k).pending > 0 → (c.sh.boxes k).active = true ∨ FairInv.someoneChecks c k) ∧
+    -- (4) on runs without uncounted consumption: the counting identity, and no stranded sender outright
+    (∀ (ct : Nat) (progs : List (List Op)), FairInv.FairWF ct progs → ∀ (c : Cfg Fair.algo),
+      FairInv.ReachNU (initCfg Fair.algo Fair.init progs) c →
+        (∃ K, FairInv.Supp c.sh K ∧ c.sh.length = FairInv.sumP K c.sh + FairInv.cnt c.threads) ∧
+        (∀ k, 0 ≤ (c.sh.boxes k).pending) ∧
+        (∀ k, (c.sh.boxes k).pending > 0 → (c.sh.boxes k).active = true ∨ FairInv.someoneChecks c k) ∧
+        (allDone c = true → ∀ k, (c.sh.boxes k).pending > 0 → (c.sh.boxes k).active = true))
 
 
 
@@ -789,7 +836,11 @@ theorem C04_all_refine : ∀ m : MB, Refines m := by
     have h := (intake_priority_order { cap := some cap, stable := true, lt } hsw progs c hr).2 x rest hp
     exact ⟨h.1, stable_priority_then_arrival { cap := some cap, stable := true, lt } rfl hsw progs c hr x rest hp⟩
   | fair =>
-    exact ⟨fun ct tid c cells h => unbounded_forward_simulation ct tid c cells h,
-      fair_subqueue_frame, fair_activation_protocol⟩
+    refine ⟨fun ct tid c cells h => unbounded_forward_simulation ct tid c cells h,
+      fair_subqueue_frame, fair_activation_protocol, ?_⟩
+    intro ct progs wf c h
+    have h1 := fair_counting_identity ct progs wf c h
+    have h2 := fair_no_stranded_sender ct progs wf c h
+    exact ⟨h1.1, h1.2, h2.1, h2.2⟩
 
 end GoaktVerif.C04
